@@ -24,7 +24,13 @@ type Convergen interface {
 
 // :@S4@
 type Beta interface {
+	Shared
 	Bee(*SrcB) *Dst
+}
+
+// convergen is NOT the reserved name (which is spelled Convergen) and carries no marker.
+type convergen interface {
+	merge(*SrcA) *Dst
 }
 
 // NotAnInterface carries a marker but is no interface.
